@@ -11,9 +11,39 @@ NOT_APPLICABLE = [
     {"property_id": "C17", "reason": "a pure finite table (41 classes x 838 declared units, __all__): enumeration, no behaviour over time, nothing to schedule or fault (Duration is exercised as a simulator clock type in C02/C03)"},
 ]
 
+PENDING_REASON = "no check registered in this commit yet (planned, DESIGN.md §9); not claimed"
+
 CHECKS = [
+    {"property_id": "C01", "level": "exploration", "design_ref": "DESIGN.md §4.1",
+     "technique": "deterministic simulation (history + reference-model idiom, scheduler idle): seeded operation histories over EventListHeap checked op by op against a sorted-list reference model and by replay-and-drain",
+     "text": "Seeded search over histories of add / re-add / remove-by-rank / remove-absent / pop / peek / contains / size / clear on tie-heavy int, float, mixed and Duration times; every return value and, after every mutating operation, the complete drain order of a replayed copy are compared with a sorted-list reference; comparison operators are checked against the key order. The same list is also driven through cancel_event inside every C02 simulator run. Sampling, not proof.",
+     "note": "no scheduler, clock or second party exists in this property (said plainly in DESIGN §0); NaN times excluded; histories <= 60 ops"},
     {"property_id": "C02", "level": "exploration", "design_ref": "DESIGN.md §4.2",
      "technique": "deterministic simulation: generated model programs on the real simulator/run thread under a seeded baton scheduler, trace equality against the RefDEVS reference interpreter",
      "text": "Seeded search over generated model programs (schedule/cancel/illegal requests, ties, three clock types) executed by the real simulator with its real run thread under the deterministic scheduler; every executed trace, request outcome and the final clock are compared exactly with an executable reference interpreter. Sampling, not proof: a clean batch is evidence over the explored programs and schedules.",
-     "note": "trusts RefDEVS (70 lines) as the intended semantics; dyadic time grid; priorities 1..10; pre-emption at line granularity of simulator.py/pubsub.py"},
+     "note": "trusts RefDEVS as the intended semantics; dyadic time grid; priorities 1..10; pre-emption at line granularity of simulator.py/pubsub.py"},
+    {"property_id": "C03", "level": "exploration", "design_ref": "DESIGN.md §4.3",
+     "technique": "deterministic simulation: seeded segmentation schedules (bounded runs, steps, pauses) of generated programs on the real simulator, lock-step with RefDEVS and equality with the uninterrupted run",
+     "text": "Seeded search over segmentations of a replication into run_up_to / run_up_to_including / step / pause pieces with cut points drawn relative to the reference's pending event times; after every piece state, clock and executed prefix are compared with the reference, and the concatenated trace and final clock with the uninterrupted run; no handler may run beyond the replication end.",
+     "note": "exclusive bounds only before the end; bounds outside [clock,end] and steps with nothing to execute may be refused or clamped (DESIGN §4.3 relaxations)"},
+    {"property_id": "C04", "level": "exploration", "design_ref": "DESIGN.md §4.4",
+     "technique": "deterministic simulation with fault injection: seeded pre-emption of the real run thread at line granularity (PCT-style and site-biased), virtual wall clock, oversleep, commands injected from handlers and listeners; lifecycle reference FSM, stream grammar and exactly-once oracles; plus enumerated command sequences of length <= 4 at quiescence",
+     "text": "Two layers. (a) every command sequence of length <= 4 over the 8-command alphabet on a fixed program plus seeded random sequences of length <= 12, each command settled, compared in lock-step with the lifecycle reference (outcome, refused-changes-nothing, notifies-nobody, state, clock, run-thread liveness, stream grammar). (b) unsettled scripts, commands from handlers and listeners, under seeded interleavings of caller and run thread; judged by stream grammar, quiescent-state invariants, consequences of accepted commands, after-end behaviour and exactly-once trace after a drain. Open findings H1/H2 are matched by objective history predicates. Sampling of schedules, not proof.",
+     "note": "one caller thread; line-granularity pre-emption; grace-period expiry (1 s loops) is by design and not judged; see known_findings.jsonl"},
+    {"property_id": "C05", "level": "fault_enumeration", "design_ref": "DESIGN.md §4.5",
+     "technique": "deterministic simulation with fault injection: handler_raise faults enumerated over every executed event x 3 error strategies x 3 run modes for small generated programs, random multi-fault plans for larger ones; oracle RefDEVS with the same fault plan",
+     "text": "For every generated program with <= 12 executed events each single executed handler is made to fail once (rotating exception class and position inside the handler) under LOG_AND_CONTINUE, WARN_AND_CONTINUE and WARN_AND_PAUSE, driven by start, bounded runs and steps; larger programs get random plans of 1-3 faults. Trace, state and clock after every command, the resumed run, the exception class escaping step() and the notification stream are compared with the reference executing the same plan.",
+     "note": "WARN_AND_END / WARN_AND_EXIT and failing listeners are out of scope per the statement; enumeration is complete per generated program, programs themselves are sampled"},
+    {"property_id": "C06", "level": "exploration", "design_ref": "DESIGN.md §4.6",
+     "technique": "deterministic simulation: prior histories (incl. pause by injected handler fault) then re-initialise = restart; differential oracle against a fresh simulator+model, lock-step with RefDEVS",
+     "text": "Seeded search over prior histories of a simulator (never started, stepped, paused, bounded run, ended, paused by an injected fault, refused start, initialize from a handler) followed by a second initialize of the same model object; trace, draws, request outcomes, notification stream, every statistics getter and the final clock of the second replication must equal a brand-new simulator and model running that replication.",
+     "note": "re-initialisation issued at quiescence; models create Sim statistics and seeded streams in construct_model as documented"},
+    {"property_id": "C08", "level": "exploration", "design_ref": "DESIGN.md §4.8",
+     "technique": "deterministic simulation (history + reference-model idiom, scheduler idle): seeded re-entrant subscribe/unsubscribe/fire histories with listener scripts, delivery-log equality against a subscription reference model",
+     "text": "Seeded search over histories of add/remove/remove_all (four forms)/fire/fire_timed with listeners that re-enter the producer from inside notify (membership changes and nested firing to depth 3); the global delivery log and has_listeners are compared with a snapshot-at-fire reference model; metadata declarations are probed with matching and non-matching payloads; timed events must carry their timestamp.",
+     "note": "single-threaded: re-entrancy is the interleaving; None payload values and NoneType metadata not generated"},
+    {"property_id": "C11", "level": "exploration", "design_ref": "DESIGN.md §4.10",
+     "technique": "deterministic simulation: generated observation schedules around warm-up/end on the real simulator, RefDEVS decides which observations fall after the warm-up event, bit-identical differential against ordinary statistics; probe listener checks published values",
+     "text": "Seeded search over model programs whose handlers observe into the four simulation statistics types (direct and via data events) with ties against the warm-up event, warm-up in {0, mid, =end, >end}, pauses/steps/bounded runs; at END_REPLICATION every getter must be bit-identical to the ordinary statistic fed the post-warm-up observations (persistent: closed at the end time); statistics are retrievable from the model by key; every published value equals the getter at that moment.",
+     "note": "float and int clocks only; same-algorithm differential"},
 ]
